@@ -538,13 +538,18 @@ fn exec_program<F: Fl + SerdeBound>(case: &Value, skip_roundtrip: bool) -> Vec<V
             let (ca, cb) = regs[i].count();
             let mut sa = books[i].0.clone(); sa.sort();
             let mut sb = books[i].1.clone(); sb.sort();
-            let breg = Reg::<F>::batch(fl, &sa, &sb);
-            let (ob, vb) = breg.observe();
+            // the batch computation on what the register claims to hold (resolved from its observable count).  A register that
+            // absorbed an inadmissible value makes that computation impossible: data for the validator, not a harness failure
+            let breg = catch_unwind(AssertUnwindSafe(|| Reg::<F>::batch(fl, &sa, &sb)));
+            let (ob, vb, have_batch) = match &breg {
+                Ok(b) => { let (o, v) = b.observe(); (o, v, true) }
+                Err(_) => ("unavailable: the books of this register hold a value its flavour rejects".to_string(), vec![], false),
+            };
             let mut rv = json!({"r": i + 1, "bag": rle(sa), "bagb": rle(sb), "ca": ca, "cb": cb,
                                 "obs": o1, "obs2": o2, "batch": ob});
             // the values themselves are logged where the renderings differ (and in tolerance mode): the property asks for
             // equality with the batch result UP TO ROUNDING, which the validator then decides on the numbers
-            if tol || o1 != ob { rv["obsv"] = Value::Array(v1); rv["batchv"] = Value::Array(vb); }
+            if have_batch && (tol || o1 != ob) { rv["obsv"] = Value::Array(v1); rv["batchv"] = Value::Array(vb); }
             regv.push(rv);
         }
         evs.push(json!({"op": "accum.step", "fl": fl, "ty": F::tyname(), "k": k + 1, "first": k == 0,
